@@ -498,7 +498,7 @@ theorem upperEsc_canonOpt (U : List UInt8) (hU : (0x25 : UInt8) ∈ U) {o : Opti
     · simp only [canonOpt, hu, Bool.false_eq_true, if_false, strOf_some, requote, Option.getD_some]
       exact ⟨upperEsc_safelyUnquote U hU (h u rfl), upperEsc_safelyUnquote U hU (h u rfl)⟩
 
-/-- `requoteNfkc` writes upper-case escapes (FX-C01-NFKCUSERINFO) -/
+/-- `requoteNfkc` writes upper-case escapes (FX-C01-194b1c7) -/
 theorem upperEsc_unquoteAuthItem {s : Str} (h : UpperEsc s) : UpperEsc (unquoteAuthItem s) := by
   intro t ht
   rw [unquoteAuthItem_eq, tokens_authItem, ← tokens_safelyUnquote _ pct_auth] at ht
@@ -983,7 +983,7 @@ theorem unq_strOf_canonOpt (U : List UInt8) (hU : (0x25 : UInt8) ∈ U) (hA : As
   | some x => rw [strOf_canonOpt_some, safelyUnquote_idem' U hU hA]
 
 /-- the same two facts for a user name / password (`safely_unquote_auth_item` is the partial
-followed by `requoteNfkc`, FX-C01-NFKCUSERINFO) -/
+followed by `requoteNfkc`, FX-C01-194b1c7) -/
 theorem strOf_canonOpt_some_auth (x : Str) :
     strOf (canonOpt false unquoteAuthItem (some x)) = unquoteAuthItem x := by
   by_cases hx : x.isEmpty = true
